@@ -47,18 +47,23 @@ def dy(rng, lo, hi, den):
 
 
 # ----------------------------------------------------------------------------- building real processes
-def step_driver(rng, d):
-    """dyadic step-measure driver (1-d StepModel or a copula of d of them) and a grid of step 1/4"""
+def step_driver(rng, d, infinite_variation=False):
+    """dyadic step-measure driver (1-d StepModel or a copula of d of them) and a grid of step 1/4.
+    The density is positive around 0 and differs left/right of 0, so the chain's drift (which leaves out
+    the mass of (-h/2, h/2)) CHANGES when the grid is refined: drift(h) = const - (c_right - c_left) h^2 / 8;
+    with the infinite-variation flag the equivalent diffusion coefficient changes with h as well."""
     from stepmeasure import StepMeasure, StepModel, make_grid, step_spec, build_copula_model
     Fr = Fraction
     h = Fr(1, 4)
     n_side = rng.choice([3, 4])
     axis = [h * k for k in range(-n_side, n_side + 1)]
-    dens = [Fr(3 * rng.randrange(1, 6), 4), Fr(0), Fr(3 * rng.randrange(1, 6), 4)]
-    breaks = [-h * n_side, -h, h, h * n_side]
+    cl = rng.randrange(1, 6)
+    cr = rng.choice([k for k in range(1, 6) if k != cl])
+    dens = [Fr(3 * cl, 4), Fr(3 * cr, 4)]
+    breaks = [-h * n_side, Fr(0), h * n_side]
     a, sigma = dy(rng, -1, 1, 4), dy(rng, 0, 1, 4)
     if d == 1:
-        model = StepModel(StepMeasure(breaks, dens, strict=False), a=a, sigma=sigma)
+        model = StepModel(StepMeasure(breaks, dens, strict=False, finite_variation=not infinite_variation), a=a, sigma=sigma)
     else:
         specs = [step_spec(StepMeasure(breaks, dens, strict=False), a=a, sigma=sigma) for _ in range(d)]
         model = build_copula_model(specs, "independent")
@@ -326,12 +331,13 @@ def coupled_cases(res, rng, tier):
         d = 2 if ip % 3 == 2 else 1
         kind = "diag" if ip % 2 else "const"
         m = d if kind == "diag" else rng.choice([1, 2])
-        driver, mkgrid = step_driver(rng, d)
+        infvar = d == 1 and ip % 2 == 0
+        driver, mkgrid = step_driver(rng, d, infinite_variation=infvar)
         c = dy(rng, -2, 2, 4) or 1.0
         x0 = [dy(rng, 0.5, 3, 4) for _ in range(m)]
         tdep = ip % 4 >= 2
         beta = dy(rng, -1, 1, 4) if tdep else 0.0
-        ctx0 = {"kind": "coupled", "a": kind, "m": m, "d": d, "c": c, "x0": x0, "time_dependent": tdep, "beta": beta}
+        ctx0 = {"kind": "coupled", "infinite_variation_flag": infvar, "a": kind, "m": m, "d": d, "c": c, "x0": x0, "time_dependent": tdep, "beta": beta}
         try:
             model = make_model(driver, x0, make_a(kind, m, d, c, tdep), beta)
             cp = CouplingSDE(model, mkgrid(), sampling_method(d))
@@ -343,7 +349,11 @@ def coupled_cases(res, rng, tier):
             continue
         flat = lambda v: [float(x) for x in np.atleast_1d(np.asarray(v, dtype=float)).flatten()]   # noqa
         drift_history = [flat(cp.mc_drift_h)]
-        for level in range(1, (3 if tier == "quick" and d == 1 else 2) + 1):
+        dcp = cp.driver_coupling_process
+        diff_history = [float(dcp.equivalent_diffusion_coefficient_fine)] if d == 1 else None
+        for level in range(1, (4 if d == 1 else 2) + 1):
+            # observed BEFORE the call: the drift / diffusion coefficient of the chain that is about to become the coarse one
+            prev_fine_drift = flat((cp.fine_process.markov_chain if level == 1 else dcp.fine_process).process_drift())
             try:
                 cp.next_level(mc_paths=1, path_managers=pms, product=prod)
             except Exception as e:  # noqa
@@ -352,10 +362,19 @@ def coupled_cases(res, rng, tier):
             mu_h, mu_2h = flat(cp.mc_drift_h), flat(cp.mc_drift_2h)
             fine_drift = flat(cp.driver_coupling_process.fine_process.process_drift())
             res.count(("levels", ip, level), nontrivial=True, kind="next_level drift bookkeeping")
-            if mu_2h != drift_history[-1] or mu_h != fine_drift or cp.level != level:
-                res.violation("CouplingSDE.next_level: mc_drift_2h is not the previous level's mc_drift_h / mc_drift_h is not the fine driver's drift",
-                              dict(ctx0, level=level, mc_drift_h=mu_h, mc_drift_2h=mu_2h, previous_h=drift_history[-1], fine_driver_drift=fine_drift))
+            res.bump("fine_drift_changes_with_level", mu_h != drift_history[-1])
+            if mu_2h != drift_history[-1] or mu_2h != prev_fine_drift or mu_h != fine_drift or cp.level != level:
+                res.violation("CouplingSDE.next_level: mc_drift_2h is not the drift of the previous level's fine chain / mc_drift_h is not the fine driver's drift",
+                              dict(ctx0, level=level, mc_drift_h=mu_h, mc_drift_2h=mu_2h, previous_level_mc_drift_h=drift_history[-1],
+                                   previous_level_fine_chain_drift=prev_fine_drift, fine_driver_drift=fine_drift, drift_history=drift_history))
             drift_history.append(mu_h)
+            if diff_history is not None:
+                cf, cc = float(dcp.equivalent_diffusion_coefficient_fine), float(dcp.equivalent_diffusion_coefficient_coarse)
+                res.bump("fine_diffusion_coefficient_changes_with_level", cf != diff_history[-1])
+                if cc != diff_history[-1] or cf != float(dcp.fine_process.equivalent_diffusion_coefficient):
+                    res.violation("coupled driver: the coarse diffusion coefficient is not the previous level's fine coefficient",
+                                  dict(ctx0, level=level, coarse=cc, fine=cf, history=diff_history))
+                diff_history.append(cf)
             for ic in range(6 if tier == "quick" else 20):
                 times, (jf, jc), (df_, dc) = gen_path(rng, d, True, rng.randrange(1, 7))
                 if d == 1:
